@@ -48,6 +48,7 @@ fn main() {
         "C05" => props::c03::run_c05(&report, &tier),
         "C06" => props::c06::run(&report, &tier),
         "C07" => props::c07::run(&report, &tier),
+        "C08" => props::c08::run(&report, &tier),
         "C09" => props::c09::run(&report, &tier),
         "C18" => props::c18::run(&report, &tier),
         "C10" => props::c10::run(&report, &tier),
